@@ -10,7 +10,7 @@ TOOLS = os.path.join(VERIF, 'tools')
 STUBS = os.path.join(TOOLS, 'stubs')
 PYDEPS = os.path.join(VERIF, '.pydeps')
 SCRATCH = os.path.join(VERIF, '.scratch')
-EVIDENCE = os.path.join(VERIF, 'evidence')
+EVIDENCE = os.environ.get('VERIF_EVIDENCE_DIR') or os.path.join(VERIF, 'evidence')
 REPLAYS = os.path.join(VERIF, 'replays')
 PYTHON = '/venv/bin/python'
 GUARD = 'ABACUSUTILS_VERIF'
